@@ -16,8 +16,10 @@ def count_tests(out):
 
 def main():
     pid, v = sys.argv[1], sys.argv[2]
-    st = f'/tmp/seedstage/{pid}/{v}'
-    wt = f'/tmp/wt/{pid}'
+    stage_root = sys.argv[3] if len(sys.argv) > 3 else '/tmp/seedstage'
+    wt_root = sys.argv[4] if len(sys.argv) > 4 else '/tmp/wt'
+    st = f'{stage_root}/{pid}/{v}'
+    wt = f'{wt_root}/{pid}'
     rec = {'property': pid, 'variant': v, 'steps': []}
     def step(name, ok, detail=''):
         rec['steps'].append({'step': name, 'ok': ok, 'detail': detail[-600:]})
@@ -34,13 +36,13 @@ def main():
     shutil.copy(f'{st}/demo.rs', f'{wt}/{place}')
     is_c18 = os.path.exists(f'{st}/compare.sh')
     if is_c18:
-        rc, out = sh(f'sh {st}/compare.sh', wt)
+        rc, out = sh(f'sh {st}/compare.sh {wt}', wt)
         ok &= step('compare.sh on unchanged tree says SAME', 'SAME' in out and 'DIFFERENT' not in out, out)
     else:
         rc, out = sh(run, wt)
         p, f = count_tests(out)
         ok &= step('demo passes on unchanged tree', rc == 0 and f == 0 and p > 0, out)
-    os.remove(f'{wt}/{place}')
+    os.path.exists(f'{wt}/{place}') and os.remove(f'{wt}/{place}')
     # with the patch
     rc, out = sh(f'git apply {st}/patch.diff', wt)
     rc, out = sh('cargo test --workspace --offline --no-fail-fast', wt)
@@ -51,13 +53,13 @@ def main():
     ok &= step('all-features build with the patch', rc == 0, out)
     shutil.copy(f'{st}/demo.rs', f'{wt}/{place}')
     if is_c18:
-        rc, out = sh(f'sh {st}/compare.sh', wt)
+        rc, out = sh(f'sh {st}/compare.sh {wt}', wt)
         ok &= step('compare.sh with patch says DIFFERENT', 'DIFFERENT' in out, out)
     else:
         rc, out = sh(run, wt)
         p, f = count_tests(out)
         ok &= step('demo fails with the patch', rc != 0, out)
-    os.remove(f'{wt}/{place}')
+    os.path.exists(f'{wt}/{place}') and os.remove(f'{wt}/{place}')
     sh('git checkout -- . && git clean -fdq -e _out -e target', wt)
     rec['confirmed'] = bool(ok)
     dst = f'/verif/seeded/{pid}-{v}'
